@@ -1,8 +1,217 @@
+import Martian.Invocation
 import Driver.Util
 
-/-! Line-protocol handler for property C16 (stub: replaced when the model exists). -/
-namespace Driver.C16
+/-!
+Line-protocol handler for property C16.
 
-def handle (_op : String) (_args : List String) : Option String := none
+Trees travel as space-separated token lists inside one TAB field:
+  value   := `n` | `T` | `F` | `i<int>` | `d<0|1>:<mant>:<exp>` | `s<hex>`
+           | `[` value* `]` | `{` (`k<hex>` value)* `}`        (`{` = `{m`; struct literal: `{s`)
+  typeid  := `t<arrayDim>:<mapDim>` base
+  base    := `c` (scalar) | `u` (untyped map) | `x` (unknown) | `(` (`f<hex>` typeid)* `)`
+Replies: `some …` / `none`; expressions print with `{m` / `{s`.
+-/
+namespace Driver.C16
+open Martian.Invocation Driver
+
+/-! ### parsing -/
+
+def parseFlt (s : String) : Option Flt :=
+  match s.splitOn ":" with
+  | [n, m, e] => do
+    let m ← m.toNat?
+    let e ← e.toInt?
+    let n ← if n == "0" then some false else if n == "1" then some true else none
+    pure ⟨n, m, e⟩
+  | _ => none
+
+def parseScalar (tok : String) : Option Lit :=
+  if tok == "n" then some .null
+  else if tok == "T" then some (.bool true)
+  else if tok == "F" then some (.bool false)
+  else match tok.toList with
+    | 'i' :: r => (String.ofList r).toInt?.map .int
+    | 'd' :: r => (parseFlt (String.ofList r)).map .flt
+    | 's' :: r => (bytesOfHex (String.ofList r)).map .str
+    | _ => none
+
+mutual
+def parseExp : Nat → List String → Option (Exp × List String)
+  | 0, _ => none
+  | _ + 1, [] => none
+  | fuel + 1, tok :: rest =>
+    if tok == "[" then
+      (parseList fuel rest).map fun (xs, r) => (.arr xs, r)
+    else if tok == "{" || tok == "{m" then
+      (parseKvs fuel rest).map fun (kvs, r) => (.map false kvs, r)
+    else if tok == "{s" then
+      (parseKvs fuel rest).map fun (kvs, r) => (.map true kvs, r)
+    else (parseScalar tok).map fun l => (.lit l, rest)
+def parseList : Nat → List String → Option (EList × List String)
+  | 0, _ => none
+  | _ + 1, [] => none
+  | fuel + 1, tok :: rest =>
+    if tok == "]" then some (.nil, rest)
+    else match parseExp fuel (tok :: rest) with
+      | some (e, r) => (parseList fuel r).map fun (es, r') => (.cons e es, r')
+      | none => none
+def parseKvs : Nat → List String → Option (EKvs × List String)
+  | 0, _ => none
+  | _ + 1, [] => none
+  | fuel + 1, tok :: rest =>
+    if tok == "}" then some (.nil, rest)
+    else match tok.toList with
+      | 'k' :: kh =>
+        match bytesOfHex (String.ofList kh) with
+        | some k =>
+          match parseExp fuel rest with
+          | some (e, r) => (parseKvs fuel r).map fun (es, r') => (.cons k e es, r')
+          | none => none
+        | none => none
+      | _ => none
+end
+
+def tokens (s : String) : List String := (s.splitOn " ").filter (· ≠ "")
+
+def parseExpStr (s : String) : Option Exp :=
+  let ts := tokens s
+  match parseExp (ts.length + 1) ts with
+  | some (e, []) => some e
+  | _ => none
+
+mutual
+/-- structure-preserving reading of a token tree as JSON (flags dropped) -/
+def toJ : Exp → J
+  | .lit l => .lit l
+  | .arr xs => .arr (toJList xs)
+  | .map _ kvs => .obj (toJKvs kvs)
+def toJList : EList → JList
+  | .nil => .nil
+  | .cons e r => .cons (toJ e) (toJList r)
+def toJKvs : EKvs → JKvs
+  | .nil => .nil
+  | .cons k e r => .cons k (toJ e) (toJKvs r)
+end
+
+def parseJStr (s : String) : Option J := (parseExpStr s).map toJ
+
+def parseDims (s : String) : Option (Nat × Nat) :=
+  match s.toList with
+  | 't' :: r =>
+    match (String.ofList r).splitOn ":" with
+    | [a, m] => do pure (← a.toNat?, ← m.toNat?)
+    | _ => none
+  | _ => none
+
+mutual
+def parseType : Nat → List String → Option (TypeId × List String)
+  | 0, _ => none
+  | _ + 1, [] => none
+  | _ + 1, [_] => none
+  | fuel + 1, dims :: b :: rest =>
+    match parseDims dims with
+    | none => none
+    | some (ad, md) =>
+      if b == "c" then some (⟨.scalar, ad, md⟩, rest)
+      else if b == "u" then some (⟨.umap, ad, md⟩, rest)
+      else if b == "x" then some (⟨.unknown, ad, md⟩, rest)
+      else if b == "(" then
+        (parseFields fuel rest).map fun (fs, r) => (⟨.struct fs, ad, md⟩, r)
+      else none
+def parseFields : Nat → List String → Option (Fields × List String)
+  | 0, _ => none
+  | _ + 1, [] => none
+  | fuel + 1, tok :: rest =>
+    if tok == ")" then some (.nil, rest)
+    else match tok.toList with
+      | 'f' :: nh =>
+        match bytesOfHex (String.ofList nh) with
+        | some n =>
+          match parseType fuel rest with
+          | some (t, r) =>
+            (parseFields fuel r).map fun (fs, r') => (.cons n t.base t.arrayDim t.mapDim fs, r')
+          | none => none
+        | none => none
+      | _ => none
+end
+
+def parseTypeStr (s : String) : Option TypeId :=
+  let ts := tokens s
+  match parseType (ts.length + 1) ts with
+  | some (t, []) => some t
+  | _ => none
+
+/-! ### printing -/
+
+def showInt (i : Int) : String := toString i
+
+def showLit : Lit → String
+  | .null => "n"
+  | .bool true => "T"
+  | .bool false => "F"
+  | .int i => "i" ++ showInt i
+  | .flt f => "d" ++ (if f.neg then "1" else "0") ++ ":" ++ toString f.mant ++ ":" ++ showInt f.exp
+  | .str s => "s" ++ hexOfBytes s
+
+mutual
+def showExp : Exp → List String
+  | .lit l => [showLit l]
+  | .arr xs => "[" :: (showList xs ++ ["]"])
+  | .map k kvs => (if k then "{s" else "{m") :: (showKvs kvs ++ ["}"])
+def showList : EList → List String
+  | .nil => []
+  | .cons e r => showExp e ++ showList r
+def showKvs : EKvs → List String
+  | .nil => []
+  | .cons k e r => ("k" ++ hexOfBytes k) :: (showExp e ++ showKvs r)
+end
+
+mutual
+def showJ : J → List String
+  | .lit l => [showLit l]
+  | .arr xs => "[" :: (showJList xs ++ ["]"])
+  | .obj kvs => "{" :: (showJKvs kvs ++ ["}"])
+def showJList : JList → List String
+  | .nil => []
+  | .cons e r => showJ e ++ showJList r
+def showJKvs : JKvs → List String
+  | .nil => []
+  | .cons k e r => ("k" ++ hexOfBytes k) :: (showJ e ++ showJKvs r)
+end
+
+def join (ts : List String) : String := " ".intercalate ts
+
+def showArg : Arg → String
+  | .plain e => "P " ++ join (showExp e)
+  | .split e => "S " ++ join (showExp e)
+
+def handle (op : String) (args : List String) : Option String :=
+  match op, args with
+  | "convert", [t, j] => do
+    let t ← parseTypeStr t
+    let j ← parseJStr j
+    match convert t j with
+    | some e => pure ("some " ++ join (showExp e))
+    | none => pure "none"
+  | "encode", [e] => do
+    let e ← parseExpStr e
+    pure (join (showJ (encode e)))
+  | "binding", [s, t, j] => do
+    let s ← if s == "0" then some false else if s == "1" then some true else none
+    let t ← parseTypeStr t
+    let j ← parseJStr j
+    match buildBinding s t j with
+    | some a =>
+      pure ("some " ++ showArg a ++ " | " ++ boolStr (dataOfBinding a).1 ++ " "
+        ++ join (showJ (dataOfBinding a).2) ++ " | " ++ boolStr a.printable)
+    | none => pure "none"
+  | "wt", [t, e] => do
+    let t ← parseTypeStr t
+    let e ← parseExpStr e
+    pure (boolStr (wt t.base t.arrayDim t.mapDim e) ++ " " ++ boolStr (intsOk e))
+  | "fltint", [f] => do
+    let f ← parseFlt f
+    pure (if f.printsAsInt then "int " ++ showInt f.intVal else "float")
+  | _, _ => none
 
 end Driver.C16
